@@ -13,6 +13,11 @@ CLAIMS = {
  'C08': ('Every listed word-level and multi-word primitive carries a contract against an integer specification (x mod q, limb-sequence value, '
          'gcd/Bezout definition, pow) and Verus discharges it for all moduli 2<=q<2^61, all operands and all word counts, function by function. '
          'Not covered: bit-serial divide_uint*/divide_u192 (assumed contract), multiply_uint general path, variable-length shifts.', '5 C08'),
+ 'C02': ('Word-level contracts on the BFV/BGV evaluation code that does not need the NTT or RNS theorems: negate / add / sub in all three call forms are proved, for every pair of operand sizes and every pair of BGV correction factors, '
+         'to produce exactly (a +/- b) mod q_j in every RNS word of the common polynomials and the (negated, for a - b) extra polynomials of the longer operand, after multiplying both operands by scalars e1, e2 with e1*f1 = e2*f2 = f (mod t) '
+         '(balance_correction_factors is proved for all factor pairs, including termination and absence of i64 overflow); invalid operands, different levels, different representations and mismatched scales are refused. '
+         'The 51 polysmallmod primitives these operations call are proved exact (unit c06_polymod*). '
+         'Not covered: multiplication / squaring (BEHZ), relinearisation, plaintext-operand variants, that word-level results decrypt to the ring operation (needs NTT/CRT theory and noise analysis).', '5 C02'),
  'C05': ('Every API form of mod_switch_to_next / mod_switch_to / rescale_to_next / rescale_to and the NTT-plaintext variants is verified against a ghost model of the modulus chain: '
          'the loops terminate (decreases on the level index), the result is exactly on the requested level, upward moves / past-the-last-level / rescale outside CKKS / wrong representation / invalid operands are refused '
          '(postconditions on normal return), plain switching leaves the scale unchanged, rescaling divides it by each dropped prime in order, the BGV correction factor is multiplied by q_last^-1 mod t, '
@@ -35,7 +40,7 @@ NOT_APPLICABLE = {
  'C18': 'agreement across n parties and all message delivery orders is a whole-history property; the per-call code sits behind iterator closures, context plumbing and serialization and no contract within reach connects it to "keys correspond to the sum of secret keys"',
 }
 
-PENDING = ['C01', 'C02', 'C03', 'C04', 'C07', 'C09', 'C10', 'C11', 'C12', 'C13', 'C16', 'C19', 'C20']
+PENDING = ['C01', 'C03', 'C04', 'C07', 'C09', 'C10', 'C11', 'C12', 'C13', 'C16', 'C19', 'C20']
 
 
 def main():
